@@ -247,6 +247,11 @@ func (m *Machine) Step(a Action) error {
 	if a.Sim && simulatable(a.Kind) {
 		m.label("simulated-not-delivered:" + a.Kind)
 	}
+	if (a.Kind == "optIn" || a.Kind == "setKey") && a.Pad > 0 && o.OK && !a.Sim {
+		// (the key models of C06, C07 and C16 identify keys by their index in the pool: an accepted
+		// malformed key would silently be booked as that pool key)
+		return violation("C07.I5.malformed-key-accepted", "%s carried a malformed or unsupported consensus key and was accepted", a.String())
+	}
 	if o.OK {
 		m.label(a.Kind + ":ok")
 	} else {
@@ -748,8 +753,6 @@ func keyJSON(m *Machine, a *Action) string {
 		return "not json"
 	case 5:
 		return strings.Replace(good, "ed25519", "sr25519", 1)
-	case 6:
-		return `{"@type":"/cosmos.crypto.ed25519.PubKey","key":"AAAAAAAAAAAAAAAAAAAAAAAAAAAAAAAAAAAAAAAAAAA="}` // the all-zero key
 	}
 	return good
 }
